@@ -93,6 +93,11 @@ impl PcapWriter {
         self.wr.write_all(hdr.as_bytes())
     }
 
+    /// Flush buffered data to the file, reporting any error (dropping the writer would hide it)
+    pub fn flush(&mut self) -> Result<(), io::Error> {
+        self.wr.flush()
+    }
+
     #[inline(always)]
     pub fn write_packet(&mut self, time: u64, pkt: &mut Packet) -> Result<(), io::Error> {
         let len = pkt.len() as u32;
